@@ -122,6 +122,7 @@ void prop_gen(Ctx &c) {
 			}
 			return e; });
 	rc::check("C16", [&]() {
+		if (c.shrink_exhausted()) return;
 		Ev e = *genEv;
 		// bounds
 		bool have_lower = e.dtstart_scale.empty(), have_until = true; int64_t lower = e.start, until = INT64_MIN; long cb = 0;
